@@ -224,3 +224,221 @@ def aggregates(fn, adt_suffix, variant=None):
             if s["k"] == "assign" and s["rv"]["k"] == "agg" and path_is(s["rv"].get("adt"), adt_suffix) and (variant is None or s["rv"].get("variant") == variant):
                 out.append((f, i, k, s))
     return out
+
+
+# ---------------------------------------------------------------------------------------------
+# gates: which switch edges dominate a block
+# ---------------------------------------------------------------------------------------------
+def gates(body, bb):
+    """[(discr-sym, label)] for every switch edge that every path from entry to bb must take.
+    For enum switches `otherwise` is renamed to the single uncovered variant when there is one;
+    for bool switches labels are True/False."""
+    sy = Sym(body.fn)
+    out = []
+    for s in range(body.n):
+        t = body.term(s)
+        if t["k"] != "switch":
+            continue
+        labels = body.switch_edges(s)
+        for label, target in labels:
+            if not body.edge_dominates((s, target), bb):
+                continue
+            lab = label
+            if t.get("dty") == "bool":
+                vals = [a["v"] for a in t["arms"]]
+                if label == "otherwise":
+                    lab = not bool(vals[0]) if len(vals) == 1 else "otherwise"
+                else:
+                    lab = bool(label)
+            elif label == "otherwise" and t.get("all_variants"):
+                covered = {a.get("variant") for a in t["arms"]}
+                rest = [v for v in t["all_variants"] if v not in covered]
+                if len(rest) == 1:
+                    lab = rest[0]
+                else:
+                    lab = ("not", tuple(sorted(x for x in covered if x)))
+            d = sy.operand(t["discr"])
+            d = strip_sym(d)
+            if d and d[0] == "discr":
+                d = strip_sym(d[1])
+            out.append((d, lab))
+    return out
+
+
+def gate_has(gs, pred, label):
+    return any(lab == label and pred(d) for d, lab in gs)
+
+
+# ---------------------------------------------------------------------------------------------
+# kind consistency
+# ---------------------------------------------------------------------------------------------
+import re
+
+KIND_RE = re.compile(r"(counter|gauge|histogram)", re.I)
+
+
+def kinds_in(s):
+    return {m.lower() for m in KIND_RE.findall(s or "")}
+
+
+def kind_of_name(name):
+    ks = kinds_in(name)
+    return next(iter(ks)) if len(ks) == 1 else None
+
+
+def region_tokens(fn):
+    """Kind-bearing identifiers used in a function region: callee paths (last two segments), field
+    names, aggregate/const variant names, statics.  Yields (token, line)."""
+    for f in fn.region():
+        b = f.body
+        for i, blk in enumerate(b.blocks):
+            for s in blk["s"]:
+                if s["k"] != "assign" or is_foreign_exp(s.get("exp")):
+                    continue
+                yield from _place_tokens(s["p"], s.get("ln"))
+                rv = s["rv"]
+                if rv["k"] == "agg":
+                    if rv.get("adt"):
+                        yield (rv["adt"].split("::")[-1] + "::" + (rv.get("variant") or ""), s.get("ln"))
+                    for o in rv.get("ops", []):
+                        yield from _op_tokens(o, s.get("ln"))
+                for key in ("a", "b"):
+                    if isinstance(rv.get(key), dict):
+                        yield from _op_tokens(rv[key], s.get("ln"))
+                if "p" in rv:
+                    yield from _place_tokens(rv["p"], s.get("ln"))
+            t = blk.get("t") or {}
+            if is_foreign_exp(t.get("exp")):
+                continue
+            if t.get("k") == "call":
+                n = strip_generics(t.get("resolved") or t.get("callee") or "")
+                segs = n.split("::")
+                yield ("::".join(segs[-2:]), t.get("ln"))
+                dn = strip_generics(t.get("callee") or "")
+                if dn and dn != n:
+                    yield ("::".join(dn.split("::")[-2:]), t.get("ln"))
+                for o in t.get("args", []):
+                    yield from _op_tokens(o, t.get("ln"))
+                yield from _place_tokens(t["dest"], t.get("ln"))
+            elif t.get("k") == "switch":
+                for a in t["arms"]:
+                    if a.get("variant") and t.get("enum"):
+                        yield (t["enum"].split("::")[-1] + "::" + a["variant"], t.get("ln"))
+
+
+def _place_tokens(p, ln):
+    for e in p.get("pr") or []:
+        if isinstance(e, dict) and "f" in e:
+            yield ("." + e["f"], ln)
+        if isinstance(e, dict) and "as" in e:
+            yield ("@" + e["as"], ln)
+
+
+def _op_tokens(o, ln):
+    p = o.get("copy") or o.get("move")
+    if p:
+        yield from _place_tokens(p, ln)
+    c = o.get("const")
+    if c:
+        for k in ("fn", "static", "named", "variant", "closure"):
+            if c.get(k):
+                v = str(c[k])
+                if k == "variant":
+                    v = c.get("ty", "").split("::")[-1] + "::" + v
+                else:
+                    v = "::".join(strip_generics(v).split("::")[-2:])
+                yield (v, ln)
+        if "str" in c:
+            yield ('"' + c["str"] + '"', ln)
+
+
+def kind_consistent(chk, rule, fn, kind, allow=()):
+    """Every kind-bearing identifier in fn's region names `kind` (tokens in `allow` are exempt)."""
+    bad = []
+    n = 0
+    for tok, ln in region_tokens(fn):
+        ks = kinds_in(tok)
+        if not ks:
+            continue
+        n += 1
+        if any(a in tok for a in allow):
+            continue
+        if ks != {kind}:
+            bad.append((tok, ln))
+    ok = not bad
+    chk.ob(rule, f"{fn.path} [kind={kind}]", ok, f"all {n} kind-bearing identifiers name {kind}" if ok else f"identifier {bad[0][0]!r} names another kind inside a {kind} function", f"{fn.file}:{bad[0][1] if bad else fn.line}")
+    return ok
+
+
+def region_signature(fn):
+    """Multiset of kind-normalised tokens + CFG shape; siblings of a kind triplet must agree."""
+    from collections import Counter
+
+    c = Counter()
+    for tok, _ in region_tokens(fn):
+        c[KIND_RE.sub(lambda m: "K" if m.group(0)[0].islower() else "K", tok)] += 1
+    nsw = 0
+    ncalls = 0
+    for f in fn.region():
+        for i in range(f.body.n):
+            t = f.body.term(i)
+            if is_foreign_exp(t.get("exp")):
+                continue
+            if t["k"] == "switch":
+                nsw += 1
+            if t["k"] == "call":
+                ncalls += 1
+    c["<switches>"] = nsw
+    c["<calls>"] = ncalls
+    return c
+
+
+def siblings_isomorphic(chk, rule, fns_by_kind, what):
+    """fns_by_kind: {kind: fn}; all region signatures must be equal modulo the kind substitution."""
+    kinds = sorted(fns_by_kind)
+    if len(kinds) < 2:
+        return
+    sigs = {k: region_signature(f) for k, f in fns_by_kind.items()}
+    ref_k = kinds[0]
+    for k in kinds[1:]:
+        a, b = sigs[ref_k], sigs[k]
+        if a == b:
+            chk.ob(rule, f"{what} [{ref_k}~{k}]", True, f"{fns_by_kind[ref_k].name} and {fns_by_kind[k].name} are isomorphic modulo the kind substitution ({sum(a.values())} tokens)", fns_by_kind[k].loc())
+        else:
+            diff = sorted(set((a - b).keys()) | set((b - a).keys()))
+            chk.ob(rule, f"{what} [{ref_k}~{k}]", False, f"{fns_by_kind[ref_k].name} vs {fns_by_kind[k].name} differ in {diff[:4]}", fns_by_kind[k].loc())
+
+
+RECORDER_METHODS = ["describe_counter", "describe_gauge", "describe_histogram", "register_counter", "register_gauge", "register_histogram"]
+
+
+def recorder_impls(crate):
+    """{self_ty: {method: fn}} for every non-derived `impl Recorder for X` in the crate."""
+    out = {}
+    for f in crate.fns:
+        tr = f.j.get("impl_trait") or ""
+        if tr == "metrics::recorder::Recorder" and f.name in RECORDER_METHODS:
+            out.setdefault((f.j["impl_self"], f.j.get("impl_path")), {})[f.name] = f
+    return out
+
+
+def recorder_forward(chk, rule, fn, through=("Deref::deref",), args_from=1, allow_extra_calls=None, same_trait="Recorder"):
+    """fn (a Recorder method) calls the same-named Recorder method exactly once per inner recorder
+    (call site count 1 unless on a loop), arguments = its own parameters in order."""
+    name = fn.name
+    tcs = [c for c in nonforeign_calls(fn) if (c.t.get("trait") or "").endswith("recorder::Recorder")]
+    where = fn.path
+    if not tcs:
+        return chk.ob(rule, where, False, "no call of an inner Recorder method", fn.loc())
+    bad = [c for c in tcs if callee_method_name(c) != name]
+    if bad:
+        return chk.ob(rule, where, False, f"calls Recorder::{callee_method_name(bad[0])} — expected Recorder::{name}", bad[0].loc())
+    sy_cache = {}
+    for c in tcs:
+        sy = sy_cache.setdefault(c.fn.path, Sym(c.fn))
+        for i in range(1, len(c.args)):
+            s = strip_sym(sy.operand(c.args[i]))
+            a = sym_arg(s)
+            if a is None or a[0] != i:
+                return chk.ob(rule, where, False, f"argument {i} of the inner {name} call is {sym_str(s)}, expected parameter #{i} unchanged", c.loc())
+    return chk.ob(rule, where, True, f"forwards to Recorder::{name} with its parameters unchanged ({len(tcs)} call site)", fn.loc())
